@@ -11,7 +11,7 @@ TECH = {
     'E3': "exhaustive enumeration of chunk-to-worker schedules of the process pool (virtual pool at the seam)",
 }
 
-READY = ["C01", "C03", "C06", "C08", "C09", "C10", "C11", "C12", "C13", "C14", "C15", "C16", "C17", "C19", "C20"]      # properties whose checks are finished and registered
+READY = ["C01", "C02", "C03", "C04", "C05", "C06", "C07", "C08", "C09", "C10", "C11", "C12", "C13", "C14", "C15", "C16", "C17", "C18", "C19", "C20"]      # properties whose checks are finished and registered
 
 NOT_BUILT = "check not built yet in this round (design in DESIGN.md section 4); not claimed"
 
